@@ -463,6 +463,10 @@ Definition batch_commit (d : db) (b : batch) : db * batch * option eerr * list e
     (set_active d1 (d_active_id d1) a', b1, None, ev1 ++ ev2 ++ ev3)
   end.
 
+(* Commit while the operating system refuses the write of the staged records (no rotation before it): FlushStaged
+   reports the error before anything reached the file or the index; the batch is finished and holds nothing *)
+Definition batch_refuse (b : batch) : batch := mkBatch [] 0 true (b_sync b) (b_id b).
+
 (* ---- recovery: loadIndexFromDataFiles -------------------------------------------- *)
 (* updateIndex *)
 Definition update_index (d : db) (k : bytes) (ty : N) (p : pos) : db :=
